@@ -337,8 +337,8 @@ def gen_text(rng, long_ok=True, theme=None):
                 i = rng.below(len(ls))
                 ls[i] = x + ('\n' if ls[i].endswith('\n') else '')
         return ''.join(l for l in ls if l != '')
-    shape = rng.weighted([('empty', 4), ('lines', 40), ('nofinal', 22), ('blank_around', 12), ('only_space', 5),
-                          ('only_nl', 4), ('single', 8), ('long', 5 if long_ok else 0)])
+    shape = rng.weighted([('empty', 4), ('lines', 38), ('nofinal', 20), ('blank_around', 12), ('only_space', 8),
+                          ('only_nl', 4), ('single', 8), ('long', 9 if long_ok else 0)])
     if shape == 'empty':
         return ''
     if shape == 'only_nl':
@@ -354,6 +354,10 @@ def gen_text(rng, long_ok=True, theme=None):
     ls = [gen_line_body(rng) for _ in range(n)]
     if rng.chance(0.4):  # repeated / related lines make regexes and filters meaningful
         ls[rng.below(n)] = rng.choice(['a', 'ab', 'a b', 'aab', 'A', ' a ', 'a,', 'v1.2', 'aaa', 'ba'])
+    if rng.chance(0.3):  # white space (blanks AND tabs) at the beginning of the first and the end of the last line
+        ws = lambda: ''.join(rng.choice(' \t') for _ in range(rng.randint(1, 3)))
+        ls[0] = ws() + ls[0]
+        ls[-1] = ls[-1] + ws()
     if shape == 'blank_around':
         ls = [rng.choice(['', ' ', '\t', '  '])] * rng.randint(1, 2) + ls + [rng.choice(['', ' ', '\t '])] * rng.randint(1, 3)
     t = '\n'.join(ls)
@@ -380,11 +384,14 @@ def gen_im(rng, n, depth=1):
 def gen_related_text(rng, t):
     """an expected text related to t: equal, extended, truncated (at line / char boundaries), or unrelated"""
     ls = lines_lf(t)
-    c = rng.weighted([('eq', 45), ('ext', 15), ('trunc_line', 12), ('trunc_char', 8), ('other', 10), ('nl', 10)])
+    if len(t) >= 100:  # the prefix-reading strategies of `equals` read len + 1 + 100 characters: prefix relations matter
+        c = rng.weighted([('eq', 30), ('ext', 30), ('trunc_line', 20), ('trunc_char', 10), ('nl', 10)])
+    else:
+        c = rng.weighted([('eq', 45), ('ext', 15), ('trunc_line', 12), ('trunc_char', 8), ('other', 10), ('nl', 10)])
     if c == 'eq':
         return t
     if c == 'ext':
-        return t + rng.choice(['\n', 'a', 'a\n', ' ', '\nb\n', gen_text(rng, False)])
+        return t + rng.choice(['\n', 'a', 'a\n', ' ', '\nb\n', gen_text(rng, False), gen_text(rng, False)])
     if c == 'trunc_line' and ls:
         return ''.join(ls[:rng.below(len(ls))])
     if c == 'trunc_char' and t:
@@ -437,9 +444,40 @@ class Gen:
             return ('strans', self.source(base, 0), T)
         return self.source(gen_related_text(rng, t), 0)
 
+    def equals_focus(self, t):
+        """(model, matcher): `equals` in the contexts that select its four strategies (operand in memory / possibly on
+        disk, model frozen by && / ||, transformed models), the two texts related by prefix relations - also with the
+        shorter one ending exactly at a line boundary of the longer one, on either side, in memory or on disk"""
+        rng = self.rng
+        kind = lambda p_file: 'file' if rng.chance(p_file) or not literal_ok(t) else 'str'
+        mode = rng.weighted([('generic', 4), ('actual_is_prefix', 3), ('expected_is_prefix', 3)])
+        ls = lines_lf(t)
+        if mode == 'actual_is_prefix':
+            actual = t if t.endswith('\n') or rng.chance(0.3) else t + '\n'
+            expected = actual + rng.choice(['a', 'b\n', '\n', gen_text(rng, False) or 'x', 'ab ,.x' * rng.randint(1, 30) + '\n'])
+            model, src = (kind(0.3), actual), (kind(0.7), expected)
+        elif mode == 'expected_is_prefix' and len(ls) >= 2:
+            k = rng.randint(max(1, len(ls) - 2), len(ls) - 1)
+            expected = ''.join(ls[:k])
+            if rng.chance(0.2):
+                expected = expected[:-1]
+            model, src = (kind(0.7), t), (kind(0.3), expected)
+        else:
+            model, src = (kind(0.5), t), self.expected_source(t, rng.below(2))
+        eq = ('equals', src)
+        m = rng.choice([eq, eq, eq, ('not', eq), ('and', [eq, ('not', ('empty',))]), ('or', [('const', False), eq]),
+                        ('trans', ('identity',), eq), ('trans', ('filter', ('const', True)), eq)])
+        return model, m
+
     def smatcher(self, t, depth):
         rng = self.rng
         r = rng.below(100)
+        if t == '' and rng.chance(0.6):
+            # an empty (possibly: emptied by a transformer) text: what line-wise consumers see matters
+            return rng.choice([('numlines', ('cmp', rng.below(6), rng.randint(0, 1))), ('empty',),
+                               ('line', rng.choice(['all', 'any']), ('const', rng.chance(0.5))),
+                               ('line', 'any', ('contents', ('empty',))), ('equals', self.source('', 0)),
+                               ('not', ('line', 'all', ('contents', ('matches', True, rid_of('')))))])
         if depth <= 0 or r < 45:
             q = rng.below(100)
             if q < 8:
@@ -512,6 +550,13 @@ class Gen:
                 cur = self.ref.t(o, cur)
             return ('seq', ops)
         q = rng.below(100)
+        if t != '' and t.strip() == '' and rng.chance(0.45):
+            return ('strip', rng.choice(['both', 'trailing-space', 'trailing-space', 'trailing-new-lines']))
+        if t == '' and rng.chance(0.5):
+            # nothing left: a pattern that matches the empty string still substitutes - if there is a line to work on
+            ks = [k for k, (r_, q_) in enumerate(SUBS) if _COMPILED[r_].fullmatch('') and REPLACEMENTS[q_] not in ('', r'\g<0>')]
+            return rng.choice([('replace', None, rng.chance(0.4), rng.choice(ks)), ('filter', ('const', True)),
+                               ('filter', ('contents', ('empty',))), ('grep', True, rid_of(''))])
         if q < 38:
             sel = self.lmatcher(t, max(depth - 1, 0)) if rng.chance(0.3) else None
             return ('replace', sel, rng.chance(0.4), self.sub_for(t))
@@ -535,9 +580,51 @@ def q_str(s):
     return "'" + s + "'"
 
 
+def open_src(e):
+    """does the rendering of this TEXT-SOURCE end in a position where a following `-transformed-by` token would be read
+    as ITS optional TRANSFORMATION (TEXT-SOURCE = STRING | -contents-of PATH ... [-transformed-by T])?"""
+    return True if e[0] in ('str', 'file') else open_t(e[2])
+
+
+def open_m(m):
+    k = m[0]
+    if k == 'equals':
+        return open_src(m[1])
+    if k == 'line':
+        return open_lm(m[2])
+    if k == 'trans':
+        return open_m(m[2])
+    if k == 'not':
+        return open_m(m[1])
+    return False  # leaves without a source; && / || are rendered inside parentheses
+
+
+def open_lm(lm):
+    k = lm[0]
+    if k == 'contents':
+        return open_m(lm[1])
+    if k == 'not':
+        return open_lm(lm[1])
+    return False
+
+
+def open_t(T):
+    return open_lm(T[1]) if T[0] == 'filter' else False  # replace ends in a STRING, a sequence in `)`
+
+
+class ImplRaised(Exception):
+    """the implementation raised (or ended in HARD_ERROR / INTERNAL_ERROR) while APPLYING a successfully parsed, valid
+    expression to a text: it did not give the documented verdict / output - a property failure, not a harness error"""
+
+
+class HarnessRenderingError(Exception):
+    """the real parser built another tree than the one the harness meant (a defect of the renderer, not of exactly)"""
+
+
 class Render:
     def __init__(self):
         self.files = {}  # name -> contents, to be created in the home directory
+        self.n_src = 0
 
     def file_for(self, t):
         name = 'f%d.txt' % len(self.files)
@@ -559,13 +646,19 @@ class Render:
         op = ' && ' if k == 'conj' else ' || '
         return '( ' + op.join(self.im(x) for x in im[1]) + ' )'
 
-    def src(self, e):
+    def src(self, e, delimit=False):
+        """delimit: the source is followed by a `-transformed-by` that is NOT its own: it must be parenthesised
+        ( `( TEXT-SOURCE' )` is a form of TEXT-SOURCE ).  One source in four is parenthesised anyway."""
         k = e[0]
+        self.n_src += 1
         if k == 'str':
-            return q_str(e[1])
-        if k == 'file':
-            return '-contents-of ' + self.file_for(e[1])
-        return self.src(e[1]) + ' -transformed-by ' + self.t(e[2])
+            r = q_str(e[1])
+        elif k == 'file':
+            r = '-contents-of ' + self.file_for(e[1])
+        else:
+            self.n_src += 1 if (self.n_src + 1) % 4 == 0 else 0  # the base of a transformed source is never parenthesised
+            r = self.src(e[1]) + ' -transformed-by ' + self.t(e[2])
+        return '( ' + r + ' )' if delimit or self.n_src % 4 == 0 else r
 
     def m(self, m, top=False):
         k = m[0]
@@ -580,7 +673,12 @@ class Render:
         if k == 'line':
             return ('every' if m[1] == 'all' else 'any') + ' line : ' + self.lm(m[2])
         if k == 'trans':
-            return '-transformed-by ' + self.t(m[1]) + ' ' + self.m(m[2])
+            # `-transformed-by T M` with T ending in a TEXT-SOURCE and M starting with `-transformed-by`: the source would
+            # swallow M's transformer.  Parenthesise T then.
+            t = self.t(m[1])
+            if open_t(m[1]) and m[2][0] == 'trans' and not t.endswith(')'):
+                t = '( ' + t + ' )'
+            return '-transformed-by ' + t + ' ' + self.m(m[2])
         if k == 'const':
             return 'constant ' + ('true' if m[1] else 'false')
         if k == 'not':
@@ -621,6 +719,132 @@ class Render:
             return 'grep ' + ('-full ' if T[1] else '') + self.regex(T[2])
         s = ' | '.join(self.t(x) for x in T[1])
         return s if top else '( ' + s + ' )'
+
+
+# ---------------------------------------------------------------------------------------------
+# Parse-tree read-back: the structure tree of the primitive the REAL parser built, against the intended AST
+# ---------------------------------------------------------------------------------------------
+_OPT = re.compile(r'^-[a-z][a-z-]*$')
+
+
+def skel_of_node(node):
+    out = [node.header]
+    for d in node.details:
+        out += _skel_of_detail(d, node.header)
+    out += [skel_of_node(c) for c in node.children]
+    return out
+
+
+def _skel_of_detail(d, hdr):
+    n = type(d).__name__
+    if n == 'TreeDetail':
+        return [skel_of_node(d.tree)]
+    if n == 'HeaderAndValueDetail':
+        inner = []
+        for v in d.values:
+            inner += _skel_of_detail(v, hdr)
+        return [['hv:' + str(d.header)] + inner]
+    if n == 'IndentedDetail':
+        inner = []
+        for v in d.details:
+            inner += _skel_of_detail(v, hdr)
+        return inner
+    if n == 'StringDetail':
+        x = str(d.string)
+        return ['opt:' + x] if _OPT.match(x) or hdr == 'constant' else []
+    return []
+
+
+class Skel:
+    """the skeleton the structure tree must have for an AST (node headers, options, nesting; not the operands'
+    texts): names as the implementation's description trees print them"""
+
+    def regex(self, rid, full=None):
+        inner = ['hv:Case insensitive'] if REGEXES[rid][1] else None
+        if full is None:
+            return inner
+        return ['hv:Full match' if full else 'hv:Contains'] + ([inner] if inner else [])
+
+    def im(self, im):
+        k = im[0]
+        if k == 'cmp':
+            return [CMPS[im[1]][0] + ' INTEGER', ['hv:RHS']]
+        if k == 'neg':
+            return ['!', self.im(im[1])]
+        if k == 'const':
+            return ['constant', 'opt:' + ('true' if im[1] else 'false')]
+        return ['&&' if k == 'conj' else '||'] + [self.im(x) for x in im[1]]
+
+    def src(self, e):
+        k = e[0]
+        if k == 'str':
+            return ['STRING']
+        if k == 'file':
+            return ['PATH']
+        return self.src(e[1]) + [['-transformed-by', self.t(e[2])]]
+
+    def m(self, m):
+        k = m[0]
+        if k == 'empty':
+            return ['is-empty']
+        if k == 'equals':
+            return ['equals TEXT-SOURCE', self.src(m[1])]
+        if k == 'matches':
+            r = self.regex(m[2], m[1])
+            return ['matches REGEX'] + ([r] if r else [])
+        if k == 'numlines':
+            return ['num-lines INTEGER-MATCHER', self.im(m[1])]
+        if k == 'line':
+            return [('every' if m[1] == 'all' else 'any') + ' line : LINE-MATCHER', self.lm(m[2])]
+        if k == 'trans':
+            return ['-transformed-by TEXT-TRANSFORMER', self.t(m[1]), self.m(m[2])]
+        if k == 'const':
+            return ['constant', 'opt:' + ('true' if m[1] else 'false')]
+        if k == 'not':
+            return ['!', self.m(m[1])]
+        return ['&&' if k == 'and' else '||'] + [self.m(x) for x in m[1]]
+
+    def lm(self, lm):
+        k = lm[0]
+        if k == 'contents':
+            return ['contents TEXT-MATCHER', self.m(lm[1])]
+        if k == 'linenum':
+            return ['line-num INTEGER-MATCHER', self.im(lm[1])]
+        if k == 'const':
+            return ['constant', 'opt:' + ('true' if lm[1] else 'false')]
+        if k == 'not':
+            return ['!', self.lm(lm[1])]
+        return ['&&' if k == 'and' else '||'] + [self.lm(x) for x in lm[1]]
+
+    def t(self, T):
+        k = T[0]
+        if k == 'identity':
+            return ['identity']
+        if k == 'replace':
+            out = ['replace']
+            if T[1] is not None:
+                out.append(['hv:-at LINE-MATCHER', self.lm(T[1])])
+            if T[2]:
+                out.append('opt:-preserve-new-lines')
+            r = self.regex(SUBS[T[3]][0])
+            out.append(['hv:pattern REGEX'] + ([r] if r else []))
+            out.append(['hv:replacement STRING'])
+            return out
+        if k == 'strip':
+            return ['strip'] + {'both': [], 'trailing-space': ['opt:-trailing-space'], 'trailing-new-lines': ['opt:-trailing-new-lines']}[T[1]]
+        if k in ('upper', 'lower'):
+            return ['char-case', 'opt:-to-' + k]
+        if k == 'filter':
+            return ['filter LINE-MATCHER', self.lm(T[1])]
+        if k == 'grep':
+            return ['filter LINE-MATCHER', ['contents TEXT-MATCHER', self.m(('matches', T[1], T[2]))]]
+        return ['|'] + [self.t(x) for x in T[1]]
+
+
+def read_back(primitive, expected, src):
+    got = skel_of_node(primitive.structure().render())
+    if got != expected:
+        raise HarnessRenderingError('the real parser read %r as %s, the harness meant %s' % (src, got, expected))
 
 
 # ---------------------------------------------------------------------------------------------
@@ -778,27 +1002,58 @@ class Impl:
             f.write(e[1])
         return self.file_source.string_source_of_file__poorly_described(p, env.tmp_files_space)
 
-    def run_t(self, T_src, files, model, mem):
+    def run_t(self, T_src, files, model, mem, expr=None):
         env = self.envs[mem]
         home = self.new_home(files)
         tcds = self.TestCaseDs(self.HomeDs(home, home), self.sds)
         tr = impl.primitive_of(impl.parse_full(self.pst, T_src), env, tcds)
-        out = tr.transform(self.base_source(model, home, env))
-        ext = bool(out.contents().may_depend_on_external_resources)
-        with out.contents().as_lines as lines:
-            ls = list(lines)
-        out.freeze()
-        fext = bool(out.contents().may_depend_on_external_resources)
-        shutil.rmtree(home, ignore_errors=True)
+        if expr is not None:
+            read_back(tr, Skel().t(expr), T_src)
+        source = self.base_source(model, home, env)
+        try:
+            out = tr.transform(source)
+            ext = bool(out.contents().may_depend_on_external_resources)
+            with out.contents().as_lines as lines:
+                ls = list(lines)
+            out.freeze()
+            fext = bool(out.contents().may_depend_on_external_resources)
+        except OSError:
+            raise
+        except Exception as ex:
+            raise ImplRaised('%s: %s' % (type(ex).__name__, str(ex)[:300]))
+        finally:
+            shutil.rmtree(home, ignore_errors=True)
         return ls, ext, fext
 
-    def run_m(self, m_src, files, model, mem):
+    def read_back_only(self, is_transformer, src, files, expr):
+        """whole-program route: the same source text through the parser API, for the parse-tree read-back"""
+        env = self.envs[1024]
+        home = self.new_home(files)
+        tcds = self.TestCaseDs(self.HomeDs(home, home), self.sds)
+        try:
+            if is_transformer:
+                read_back(impl.primitive_of(impl.parse_full(self.pst, src), env, tcds), Skel().t(expr), src)
+            else:
+                read_back(impl.primitive_of(impl.parse_full(self.psm, src), env, tcds), Skel().m(expr), src)
+        finally:
+            shutil.rmtree(home, ignore_errors=True)
+
+    def run_m(self, m_src, files, model, mem, expr=None):
         env = self.envs[mem]
         home = self.new_home(files)
         tcds = self.TestCaseDs(self.HomeDs(home, home), self.sds)
         mt = impl.primitive_of(impl.parse_full(self.psm, m_src), env, tcds)
-        v = bool(mt.matches_w_trace(self.base_source(model, home, env)).value)
-        shutil.rmtree(home, ignore_errors=True)
+        if expr is not None:
+            read_back(mt, Skel().m(expr), m_src)
+        source = self.base_source(model, home, env)
+        try:
+            v = bool(mt.matches_w_trace(source).value)
+        except OSError:
+            raise
+        except Exception as ex:
+            raise ImplRaised('%s: %s' % (type(ex).__name__, str(ex)[:300]))
+        finally:
+            shutil.rmtree(home, ignore_errors=True)
         return v
 
 
@@ -816,7 +1071,7 @@ class Program:
         self.mps = {mem: impl.main_program(str(self.sb), mem) for mem in self.PMEMS}
         self.n = 0
 
-    def run(self, case):
+    def run(self, case, im=None):
         rnd = Render()
         self.n += 1
         home = self.tmp / ('p%d' % self.n)
@@ -842,10 +1097,16 @@ class Program:
         with open(home / 't.case', 'w', encoding='utf-8', newline='') as f:
             f.write(body)
         case['src'], case['files'], case['case_file'] = src, files, body
+        if im is not None:
+            im.read_back_only(via == 'file-instruction', src, dict(rnd.files), case['expr'])
         keep = via == 'file-instruction'
         r = impl.run_main(self.mps[case['mem']], (['--keep'] if keep else []) + [str(home / 't.case')], str(home), str(self.scratch))
         if r.exception is not None:
-            raise r.exception
+            raise ImplRaised('escaped MainProgram.execute: %s: %s' % (type(r.exception).__name__, str(r.exception)[:300]))
+        from exactly_lib.processing import exit_values as xv
+        for bad in (xv.EXECUTION__HARD_ERROR, xv.EXECUTION__INTERNAL_ERROR):
+            if r.exit_code == bad.exit_code:
+                raise ImplRaised('%s: %s' % (bad.exit_identifier, r.err[:400]))
         if keep:
             d = r.out.strip()
             if r.exit_code != 0 or not os.path.isdir(d):
@@ -917,7 +1178,13 @@ def make_cases(rng, n_t, n_m, res):
         model = ('file', text) if rng.chance(0.55) or not literal_ok(text) else ('str', text)
         mem = rng.choice(MEMS)
         depth = rng.weighted([(0, 2), (1, 4), (2, 4), (3, 2)])
-        expr = g.trans(text, depth) if kind == 'T' else g.smatcher(text, depth)
+        if kind == 'M' and rng.chance(0.08):
+            g.theme = None
+            text = gen_text(rng) if rng.chance(0.3) else '\n'.join(
+                ''.join(rng.choice('ab ,.x') for _ in range(rng.randint(15, 60))) for _ in range(rng.randint(2, 5))) + rng.choice(['', '\n'])
+            model, expr = g.equals_focus(text)
+        else:
+            expr = g.trans(text, depth) if kind == 'T' else g.smatcher(text, depth)
         cases.append({'kind': kind, 'expr': expr, 'model': model, 'mem': mem})
     return cases
 
@@ -927,12 +1194,12 @@ def observe(im, case):
     if case['kind'] == 'T':
         src = rnd.t(case['expr'], top=True)
         case['src'], case['files'] = src, rnd.files
-        ls, ext, fext = im.run_t(src, rnd.files, case['model'], case['mem'])
+        ls, ext, fext = im.run_t(src, rnd.files, case['model'], case['mem'], case['expr'])
         case['obs'] = {'lines': ls, 'ext': ext, 'fext': fext}
     else:
         src = rnd.m(case['expr'], top=True)
         case['src'], case['files'] = src, rnd.files
-        case['obs'] = {'verdict': im.run_m(src, rnd.files, case['model'], case['mem'])}
+        case['obs'] = {'verdict': im.run_m(src, rnd.files, case['model'], case['mem'], case['expr'])}
 
 
 def coq_case(case):
@@ -1052,11 +1319,18 @@ def observe_all(tmp, cases, res):
     for c in cases:
         try:
             if c.get('via') in ('file-instruction', 'contents-instruction', 'stdout-instruction'):
-                pg.run(c)
+                pg.run(c, im)
             else:
                 c.pop('via', None)
                 observe(im, c)
-        except Exception as ex:  # the implementation rejects / crashes on a generated expression: fail-closed
+        except ImplRaised as ex:
+            c['obs'] = {'exception': str(ex)}
+            ref = Ref()
+            c['ref'] = ref.t(c['expr'], c['model'][1]) if c['kind'] in ('T', 'TF') else ref.m(c['expr'], c['model'][1])
+            res.prop_failures.append(Failure('property', case_json(c), 'the implementation raised / ended in HARD_ERROR or '
+                                             'INTERNAL_ERROR while applying a valid expression: no documented verdict / output'))
+            continue
+        except Exception as ex:  # the real parser rejects a generated expression / reads it differently: fail-closed
             res.errors.append('implementation raised on %r (%s): %s: %s' % (c.get('src'), c.get('via'), type(ex).__name__, str(ex)[:300]))
             if len(res.errors) > 20:
                 break
